@@ -2297,8 +2297,9 @@ func runTokenERC20(run *ev.Run, c int) {
 		{"erc20-switch", "issue", "issue", "issue"}, {"issue", "issue-shadow", "issue-shadow", "send", "send"}, {"deploy", "deploy", "send"}, {"deploy", "to-erc20", "to-erc20"},
 		{"to-erc20", "to-erc20", "from-erc20"}, {"deploy-hostile", "from-erc20", "hook"},
 	}
-	kinds := []string{"to-erc20", "from-erc20", "hook", "deploy", "deploy-hostile", "erc20-switch", "issue", "send", "mint", "burn", "issue-shadow"}
-	weights := []int{30, 28, 12, 4, 4, 4, 2, 5, 3, 2, 1}
+	// (edits and hand-overs by the owner too: a token that is bound to a contract stays bound through them)
+	kinds := []string{"to-erc20", "from-erc20", "hook", "deploy", "deploy-hostile", "erc20-switch", "issue", "send", "mint", "burn", "issue-shadow", "edit", "transfer"}
+	weights := []int{30, 28, 12, 4, 4, 4, 2, 5, 3, 2, 1, 5, 2}
 	for b := 0; b < blocks; b++ {
 		g.begin()
 		var txs []rig.Tx
@@ -2569,6 +2570,24 @@ func (d *tkC10) observe(br *rig.BlockRecord) {
 		}
 		if tx.Pre != nil {
 			d.accepted(br, tx, tag, tx.Pre.(*tkSnap), tx.Post.(*tkSnap))
+			if tag.Kind != "deploy" && tag.Kind != "setup" {
+				// only a deployment binds a token to a contract; nothing else changes or drops a binding
+				pre, post := tx.Pre.(*tkSnap), tx.Post.(*tkSnap)
+				for i := range pre.Tokens {
+					pt := &pre.Tokens[i]
+					if pt.Contract == "" {
+						continue
+					}
+					run.Eval(1)
+					if nt := post.byMinUnit(pt.MinUnit); nt == nil || !strings.EqualFold(nt.Contract, pt.Contract) {
+						got := "<token gone>"
+						if nt != nil {
+							got = nt.Contract
+						}
+						run.Violation("C10:token:contract-binding-changed-by-"+tag.Kind, map[string]any{"height": br.Height, "msgs": msgBrief(tx.Msgs)}, "token %s was bound to contract %s before a %s, afterwards its record names %q", pt.Symbol, pt.Contract, tag.Kind, got)
+					}
+				}
+			}
 			if run.Property == "C09" {
 				d.burnTallyUntouched(br, tx, tag, tx.Pre.(*tkSnap), tx.Post.(*tkSnap))
 			}
